@@ -5,6 +5,7 @@
 import TshVerif.Model.Lexer
 import TshVerif.Model.Sexp
 import TshVerif.Model.EmitBash
+import TshVerif.Model.Parser
 
 open Tsh
 
@@ -35,7 +36,30 @@ def handleBash (sexp : String) : String :=
     | .error _ => "ERR"
     | .panic _ => "PANIC"
 
+/-- PARSE <main-hex> <exedir-hex> {<path-hex> <content-hex> <prefix>}*  (absolute virtual paths) -/
+def handleParse (args : List String) : String :=
+  match args with
+  | mainHex :: exeHex :: rest =>
+    let rec files (xs : List String) (acc : List (String × Bytes × String)) : Option (List (String × Bytes × String)) :=
+      match xs with
+      | [] => some acc.reverse
+      | p :: c :: h :: more =>
+        match bytesOfHex p, bytesOfHex c with
+        | some pb, some cb => files more ((bytesStr pb, cb, h) :: acc)
+        | _, _ => none
+      | _ => none
+    match bytesOfHex mainHex, bytesOfHex exeHex, files rest [] with
+    | some m, some e, some fl =>
+      match Parser.parse { files := fl, exeDir := bytesStr e } (bytesStr m) with
+      | .ok p _ => "OK " ++ encProgram p.body
+      | .error => "ERR"
+      | .panic => "PANIC"
+      | .diverge => "DIVERGE"
+    | _, _, _ => "BADREQ"
+  | _ => "BADREQ"
+
 def handle (line : String) : String :=
+  if line.startsWith "PARSE " then handleParse ((line.drop 6).toString.splitOn " ") else
   if line.startsWith "BASH " then handleBash (line.drop 5).toString else
   match line.splitOn " " with
   | ["LEX"] => handleLex ""
